@@ -43,6 +43,7 @@ Definition stmt_eqb (a b : stmt) : bool :=
   match a, b with
   | SSelectOne s i, SSelectOne s' i' => side_eqb s s' && (i =? i')
   | SSelect s, SSelect s' => side_eqb s s'
+  | SSelectCol s i c, SSelectCol s' i' c' => side_eqb s s' && (i =? i') && Nat.eqb c c'
   | SCount s, SCount s' => side_eqb s s'
   | SInsert s, SInsert s' => side_eqb s s'
   | SUpdate s i c, SUpdate s' i' c' => side_eqb s s' && (i =? i') && Nat.eqb c c'
